@@ -65,6 +65,8 @@ public:
 
     Cf eval(const Cf &x) const
     {
+        if (this->get_poly().dict_.empty())
+            return Cf(0);
         Key last_deg = this->get_poly().dict_.rbegin()->first;
         Cf result(0), x_pow;
 
